@@ -233,6 +233,13 @@ def run(rep, repo, tier):
       nset += c09.rule_setters(rep, repo, repo.module(quant.QMOD), cls,
                                base, c09.ALTS[cls][1], rule="R7")
   rep.extra["property_setter_assignments_checked"] = nset
+  # R8: a po2 quantizer does not depend on the po2 quantizers built before
+  # it in the same process (rule shared with C09 R10)
+  nh = c09.rule_construction_history(
+      rep, repo, repo.module(quant.QMOD),
+      ("quantized_po2", "quantized_relu_po2"), "R8")
+  if nh < 20:
+    raise AnalysisError("instance-count only %d construction histories" % nh)
   rep.require_instances("R1", 150)
   rep.require_instances("R2", 150)
   rep.require_instances("R3", 150)
